@@ -174,7 +174,8 @@ VALID_ALTS = {
 
 
 HOSTILE = ["nan", "NaN", " nan ", "-nan", "inf", "-Infinity", "1e999", "1e-999", "0x10", "1_000", "١٢", "true", "null", "", NAN, INF, -INF, 1e308, -1e308, 1e200, 10 ** 400,
-           -10 ** 400, 5e-324, -0.0, 2 ** 63, 2 ** 31, -1, 0, 1, 0.5, True, False, None, [], {}, [[1]], [{"a": 1}], [None], ["x", 1], {"a": [1]}, [NAN]]
+           -10 ** 400, 5e-324, -0.0, 2 ** 63, 2 ** 31, -1, 0, 1, 0.5, True, False, None, [], {}, [[1]], [{"a": 1}], [None], ["x", 1], {"a": [1]}, [NAN],
+           {1: 2, "x": 3}, {None: 1, "a": 0}, 0.0, [0], "0", b"bytes"]
 
 
 def _kind_of(v):
@@ -525,7 +526,7 @@ def _chunk(args):
         # (one mutation of the valid template / of the empty config each, so accepted ones are also executed)
         sweep = [(p_, v_) for p_ in allp for v_ in HOSTILE]
         interior = sorted({p_[:j] for p_ in allp for j in range(1, len(p_))})
-        sweep += [(p_, v_) for p_ in interior for v_ in (None, 1, "x", [], True, {})]
+        sweep += [(p_, v_) for p_ in interior for v_ in (None, 1, "x", [], True, {}, {1: 2, "EditGraph": 3}, {None: 1, "a": 0, 2.5: 1}, {(1, 2): 1, "b": {3: 4, "c": 5}})]
         # unknown keys whose names carry line-boundary characters (they are echoed in the messages), under every section
         sweep += [(p_ + (k_,), 1) for p_ in [()] + interior for k_ in ("bad\rkey", "ff\x0ckey", "nel\x85key", "ls\u2028key", "nl\nkey")]
         nchunks = par.NWORK
